@@ -350,4 +350,4 @@ func init() {
 	}
 }
 
-var pathSafeHostile = []string{"a", "- x", "*", "é日本", "a b", "a-b", "+x*", "#h"}
+var pathSafeHostile = []string{"a", "- x", "*", "é日本", "a b", "a-b", "+x*", "#h", "100%d", "<&>", "p ├── q", "C#"}
